@@ -2,9 +2,10 @@
    Only statements closed by `exact`, each followed by Print Assumptions, plus non-vacuity Examples.
    Spec: spec/SpecTextStyle.v (flags per visible character, balanced, flat_balanced, well_nested).
    Writer markup: model/TextStyle.v = the writer models of model/TextWrite.v instrumented with the markup events
-   they write (erasure theorems below).  Reader models: model/TextRead.v.  Round trips on the models: the *_roundtrip_flags theorems below; cross-format chains,
-   reader -> WebVTT, layout groups and the real libraries are judged by execution (harness/props/C11.py).
-   `balanced` counts depth only (an end node's dictionary is not compared with its start node's). *)
+   they write (erasure theorems below).  Reader models: model/TextRead.v.  Round trips on the models: the *_roundtrip_flags theorems below; wave 7: closure (*_roundtrip_closed: reader-model output on written
+   payloads of the domain is flat_balanced, i.e. the end node repeats the start node) and the cross-format chains DFXP<->SAMI on the payload
+   models (C11_chain_*); reader -> WebVTT, layout groups, documents and the real libraries are judged by execution (harness/props/C11.py).
+   `balanced` (the *_reader_balanced theorems, all trees) counts depth only. *)
 From Coq Require Import List ZArith Bool.
 From PV Require Import lib.Sx lib.Str model.TextNodes model.TextWrite model.TextRead model.TextStyle.
 From PV Require Import spec.SpecTextXml spec.SpecTextStyle proofs.TextStyleFacts.
@@ -148,20 +149,32 @@ Theorem C11_chain_sami_dfxp_sami : forall r ns, nodes_ok plain_style ns = true -
 Proof. exact chain_sami_dfxp_sami. Qed.
 Print Assumptions C11_chain_sami_dfxp_sami.
 
-(* the executable chain functions (run by the harness beside the real readers / writers, request 1110) *)
-Theorem C11_chain_dsd_flags : forall r1 r2 ns, nodes_ok plain_style ns = true -> flat_balanced ns = true ->
+(* COROLLARIES of the two chain theorems (weaker restatements about the executable chain functions run by the harness, request 1110;
+   not counted as property theorems) *)
+Theorem C11_chain_dsd_flags_unfold : forall r1 r2 ns, nodes_ok plain_style ns = true -> flat_balanced ns = true ->
   exists n3, chain_dsd (extra_of r1) (extra_of r2) ns = Some n3 /\ ok_flags m_i ns n3 = true /\ flat_balanced n3 = true.
 Proof. exact chain_dsd_flags. Qed.
-Print Assumptions C11_chain_dsd_flags.
+Print Assumptions C11_chain_dsd_flags_unfold.
 
-Theorem C11_chain_sds_flags : forall r ns, nodes_ok plain_style ns = true -> flat_balanced ns = true ->
+Theorem C11_chain_sds_flags_unfold : forall r ns, nodes_ok plain_style ns = true -> flat_balanced ns = true ->
   exists n3, chain_sds (extra_of r) ns = Some n3 /\ ok_flags m_i ns n3 = true /\ flat_balanced n3 = true.
 Proof. exact chain_sds_flags. Qed.
-Print Assumptions C11_chain_sds_flags.
+Print Assumptions C11_chain_sds_flags_unfold.
 
 Example C11_example_chain :
   option_map flags (chain_dsd [] [] ex_nodes) = Some (map (fun p => (fst p, mask3 m_i (snd p))) (flags ex_nodes)).
 Proof. vm_compute. reflexivity. Qed.
+
+Example C11_example_chain_sds :
+  option_map flags (chain_sds (extra_of true) ex_nodes) = Some (map (fun p => (fst p, mask3 m_i (snd p))) (flags ex_nodes)).
+Proof. vm_compute. reflexivity. Qed.
+
+Example C11_example_roundtrip_color :
+  let st := mkStyle true false false (Some (lit "a""<'&")) in
+  let ns := [NText (lit "p "); NStyle true st; NText (lit "x y"); NStyle false st] in
+  nodes_ok color_style ns = true /\ flat_balanced ns = true /\
+  option_map (fun t => flags (flat_map (dfxp_nodes true) t)) (content_parse (dfxp_payload [] ns)) = Some (flags ns).
+Proof. repeat split; vm_compute; reflexivity. Qed.
 
 (* ---- non-vacuity ---- *)
 Example C11_example_flat : flat_balanced ex_nodes = true.
